@@ -1,6 +1,43 @@
 package rules
 
+import (
+	"go/constant"
+	"strings"
+
+	"jsverif/internal/core"
+)
+
 func init() {
 	Register("C09", "Decides structural necessary conditions of determinism: (maprange) no observable result depends on map iteration order; (addr) no address or pointer-bearing struct is rendered into text; (src) no clock/random/environment/goroutine source is reachable from the entry points. Does NOT decide equality of results across processes in general.",
-		c09maprange, c11extAs("C09.ext"), c10share("C09.share"))
+		c09maprange, c09addr, c11extAs("C09.ext"), c10share("C09.share"))
+}
+
+// c09addr: no heap address in anything observable.
+func c09addr(c *core.Ctx) {
+	const R = "C09.addr"
+	c.Rule(R, "no formatting call in scope uses the verb %p (or prints a pointer with %v/%d through an `unsafe`/uintptr conversion): a heap address differs in every run and for every object, so any name, message or key derived from it makes the observable result differ between repetitions of the same input")
+	c.Floor(R, 1)
+	n := 0
+	for _, cs := range c.P.Calls() {
+		name := core.FullName(core.Callee(cs.Pkg, cs.Call))
+		if !strings.HasPrefix(name, "fmt.") {
+			continue
+		}
+		for _, a := range cs.Call.Args {
+			v := core.ConstOf(cs.Pkg, a)
+			if v == nil || v.Kind() != constant.String {
+				continue
+			}
+			f := constant.StringVal(v)
+			if !strings.Contains(f, "%p") {
+				continue
+			}
+			n++
+			fn := core.DeclName(cs.Pkg, cs.Decl)
+			c.Bad(R, fn+":%p", c.P.Pos(cs.Call.Pos()), name+"("+core.ExprStr(a)+", ...) in "+fn, "a heap address is formatted into a string")
+		}
+	}
+	if n == 0 {
+		c.OK(R, "no-%p", "-", "no %p verb in any constant format string in scope")
+	}
 }
